@@ -172,7 +172,11 @@ func (q *question) PipelineSend(ctx context.Context, transform []capnp.PipelineO
 	if err != nil {
 		q.c.questions[q2.id] = nil
 		q.c.questionID.remove(uint32(q2.id))
+		// The peer never saw the params' descriptors: take back the
+		// export references they added.
+		rl, _ := q.c.releaseExports(q2.paramRefs)
 		q.c.mu.Unlock()
+		rl.release()
 		params.release()
 		return capnp.ErrorAnswer(s.Method, errorf("send message: %v", err)), func() {}
 	}
